@@ -319,13 +319,12 @@ func c09Menu() []deviation {
 	return m
 }
 
-// documented status per code (MethodNotAllowed: AWS documents 405, the
-// implementation's table says 400; both are accepted).
+// documented status per code
 var c09CodeStatus = map[string][]int{
 	"BucketAlreadyExists": {409}, "BucketNotEmpty": {409}, "BadDigest": {400}, "IllegalVersioningConfigurationException": {400},
 	"IncompleteBody": {400}, "IncorrectNumberOfFilesInPostRequest": {400}, "InlineDataTooLarge": {400}, "InvalidArgument": {400},
 	"InvalidBucketName": {400}, "InvalidDigest": {400}, "InvalidPart": {400}, "InvalidPartOrder": {400}, "InvalidToken": {400},
-	"InvalidURI": {400}, "KeyTooLongError": {400}, "MetadataTooLarge": {400}, "MethodNotAllowed": {400, 405}, "MalformedPOSTRequest": {400},
+	"InvalidURI": {400}, "KeyTooLongError": {400}, "MetadataTooLarge": {400}, "MethodNotAllowed": {405}, "MalformedPOSTRequest": {400},
 	"MalformedXML": {400}, "TooManyBuckets": {400}, "RequestTimeTooSkewed": {403}, "InvalidRange": {416}, "NoSuchBucket": {404},
 	"NoSuchKey": {404}, "NoSuchUpload": {404}, "NoSuchVersion": {404}, "NotImplemented": {501}, "NotModified": {304},
 	"MissingContentLength": {411}, "InternalError": {500},
@@ -521,7 +520,7 @@ func doWithWatchdog(w *drv.World, r drv.Req) (drv.Resp, bool) {
 
 func runC09(c *engine.Ctx) {
 	c.Rule = "case = (backend/options, reachable start state, base request of one of 28 routes, <= k deviations where a deviation sets one slot (method, path shape, query parameter, header, declared length, body) to a value of the finite menu); oracle: no panic, the call returns, response is a success or an error status whose body is empty or an <Error><Code> document with the status documented for that code, and afterwards a canary sequence (put/get/list/delete on the same and on another bucket) behaves and untouched data is unchanged; plus, on the fs backends, every route x state with exactly one failing storage operation at every position (no panic, returns, well-formed error, canary afterwards); distinct_nontrivial = distinct (status, code) outcomes x route"
-	c.Assumptions = append(c.Assumptions, "deviation bound k=1 on every route and state (quick) / k=2 on the routing-relevant and route-specific slots (thorough, and quick on the memory backend's stateful routes)", "a 60 s watchdog per request stands in for 'never blocks' (normal latency is ~10 us)", "MethodNotAllowed may carry 400 or 405")
+	c.Assumptions = append(c.Assumptions, "deviation bound k=1 on every route and state (quick) / k=2 on the routing-relevant and route-specific slots (thorough, and quick on the memory backend's stateful routes)", "a 60 s watchdog per request stands in for 'never blocks' (normal latency is ~10 us)")
 	routes := c09Routes()
 	menu := c09Menu()
 	weird := c09Weird()
